@@ -27,7 +27,7 @@ Proof. exact c06_holds. Qed.
 Print Assumptions C06_spec.
 
 (* the premise of abstracting from time in this property's model: the code it models waits, polls and gives up
-   exactly where the model says (primitive codes in Proofs/W_*.v); re-extracted from the source on every run *)
+   with exactly the kinds of primitives the model accounts for (codes in Proofs/W_*.v); re-extracted from the source on every run *)
 Require Import GV.Gen.Consts GV.Proofs.W_can GV.Proofs.W_net GV.Proofs.W_authority.
 Theorem C06_time_abstraction : waits_can = (@nil Z) /\ waits_net = (@nil Z) /\ waits_authority = (@nil Z).
 Proof. exact (conj w_can (conj w_net w_authority)). Qed.
